@@ -1,5 +1,40 @@
 package main
 
-// runThoroughExtras: extra work done only by the thorough tier, beyond the
-// additional GOOS/GOARCH loads (filled in per property as engines grow).
-func runThoroughExtras(id string, r *Report) {}
+// runThoroughExtras: work done only by the thorough tier, beyond the additional GOOS/GOARCH loads:
+// the checker's self-test.  Every hand-written variant of /repo registered for the property
+// (mutants/<id>.json: one construct broken, still compiling) is analysed in a scratch copy and must make the
+// named rule fire; every benign variant must stay silent.  The self-test exercises the CHECKER; its result is
+// reported in the evidence (coverage.self_test) and is not evidence for the property itself.
+
+import (
+	"os"
+	"os/exec"
+	"path/filepath"
+	"strings"
+)
+
+func runThoroughExtras(id string, r *Report) {
+	script := filepath.Join(verifDir, "mutants", "run.py")
+	if _, err := os.Stat(filepath.Join(verifDir, "mutants", id+".json")); err != nil {
+		r.Extra["self_test"] = "no hand-written variants registered for this property"
+		return
+	}
+	cmd := exec.Command("python3", script, id, "--jobs", "6")
+	cmd.Env = append(os.Environ(), "VERIF_DIR="+verifDir, "VERIF_REPO="+repoDir)
+	out, _ := cmd.CombinedOutput()
+	var lines []string
+	bad := 0
+	for _, l := range strings.Split(strings.TrimSpace(string(out)), "\n") {
+		if strings.TrimSpace(l) == "" {
+			continue
+		}
+		lines = append(lines, strings.TrimSpace(l))
+		if !strings.HasPrefix(l, "OK") && !strings.Contains(l, "variants,") {
+			bad++
+		}
+	}
+	r.Extra["self_test"] = lines
+	if bad > 0 {
+		r.Note("checker self-test: %d variant(s) not handled as expected (see coverage.self_test)", bad)
+	}
+}
